@@ -77,7 +77,9 @@ CHECKS["C23"] = dict(
     level_note=_KAD_TRUSTED + "; with no eligible peer the statement's two 'exactly when' clauses overlap: both 'not found' and (with "
                "includeSelf) 'want self' are accepted there, the code's choice is recorded as a conformance note only; self counts as "
                "certainly eligible iff includeSelf and own reachability Public (code contract), as possibly eligible iff includeSelf",
-    design=[dict(spec="MCKad.tla", cfg="MCKadFnC.cfg", cfg_thorough="MCKadFnC_thorough.cfg", workers=8, timeout=1500)],
+    design=[dict(spec="MCKad.tla", cfg="MCKadFnC.cfg", workers=8, timeout=1500),
+            # deepest bins: the XOR-as-natural lemma needs more than 31 bits there, only the closest-peer lemmas are checked
+            dict(spec="MCKad.tla", cfg="MCKadFnC_thorough.cfg", workers=8, timeout=2400, thorough_only=True)],
     gen=dict(
         quick=[_gen("KadGenQuery.cfg", "sim", "queries", dict(VERIF_UNIV="cp", VERIF_BINMAX=5), depth=14, num=3, max=5)],
         thorough=[_gen("KadGenQuery.cfg", "sim", "queries", dict(VERIF_UNIV="cp", VERIF_BINMAX=5), depth=14, num=25, max=40),
